@@ -49,7 +49,8 @@ def plan(tier, seed):
 
 def floors(tier):
     return {'evaluations': 30000, 'distinct_nontrivial': 10000, 'errors_located': 15000,
-            'faults_injected': 20000, 'histkeys:fault': 9, 'legacy_api_errors': 3000}
+            'faults_injected': 20000, 'histkeys:fault': 9, 'legacy_api_errors': 3000,
+            'custom_context_soups': 500, 'parser_class_context_soups': 1000}
 
 
 def setup(rec):
@@ -155,6 +156,12 @@ def run_shard(desc, rec):
                 rec.case()
                 rec.monitor('custom_context_soups')
                 check_case({'s': s, 'ctx': {'vocab': 'custom', 'vseed': vseed}}, rec)
+        # soups over a context using the argument parser classes that have no argument-string spelling (comma-separated
+        # list, characters group, tack-on field macros, full-node-list markers)
+        for s in work.nlargs_strings(rng, max(200, desc['count'] // 4)):
+            rec.case()
+            rec.monitor('parser_class_context_soups')
+            check_case({'s': s, 'ctx': {'vocab': 'nlargs'}}, rec)
     else:
         # verbatim text is restricted to characters that stay inert if a fault makes the parser
         # re-read it as markup (a '%' or brace inside former verbatim text could hide or re-balance
